@@ -85,6 +85,9 @@ func (o *treeOracle) Cmp(a, b pred.Val) (int, bool) {
 		k, compl = k[1:], true
 	}
 	if v, ok := o.assign[k]; ok {
+		if v == pred.Unordered {
+			return v, true
+		}
 		if compl {
 			if v == 0 {
 				return -1, true
